@@ -822,3 +822,8 @@ for _k, _kn in ((1, "owner_disconnect"), (2, "caller_disconnect")):
           symbolic="set value", assumes=["set-up requests succeed", "the timer did expire (reading the timerfd returns one expiration)"],
           bounds="one routed request; one batch of two events (%s)" % _nm, **_scn_batch)
 _also(["C14.batch_"], ["C14", "C06"])
+
+O(id="C05.peer_leaves_with_everything", props=["C05", "C03", "C01", "C07", "C11"], entry="harness_peer_leaves_with_everything",
+  functions=_RF + ["free_peer_resources", "remove_routing_info_from_peer", "remove_peer_from_routes", "remove_all_fetchers_from_peer", "remove_all_elements_from_peer", "notify_fetchers"],
+  symbolic="set value, reply payload / new value", assumes=["set-up requests succeed and are routed"],
+  bounds="4 peers: P owns 's' (B subscribed), P holds a fetch, P -> O set in flight, A -> P set in flight; then P's connection ends", **_scn_route)
